@@ -31,6 +31,7 @@ package hashmap
 //@ func (*hashmap.HashMap).Value
 //@   requires HMok(em) && itag(h) != 0
 //@   assigns ghost(lock_RLock), ghost(lock_RUnlock)
+//@   call iface:hashmap.Hasher.HashCode [the_slot_is_chosen_under_the_read_lock_so_that_the_capacity_read_is_the_capacity_searched] ghost(lock_RLock) - ghost(lock_RUnlock) == old(ghost(lock_RLock) - ghost(lock_RUnlock)) + 1
 //@   call iface:hashmap.Hasher.HashEquals [keys_are_compared_under_the_read_lock] ghost(lock_RLock) - ghost(lock_RUnlock) == old(ghost(lock_RLock) - ghost(lock_RUnlock)) + 1
 //@   ensures [read_lock_released] ghost(lock_RLock) == old(ghost(lock_RLock)) + 1 && ghost(lock_RUnlock) == old(ghost(lock_RUnlock)) + 1
 //@   ensures [found_is_the_first_equal_key_of_the_selected_slot] result1 ==> (exists j int :: 0 <= j && j < len(em.mapArray[slot(h, em.capacity)]) && heq(h, em.mapArray[slot(h, em.capacity)][j].Key) && result0 == em.mapArray[slot(h, em.capacity)][j].Value && (forall k int :: {em.mapArray[slot(h, em.capacity)][k]} 0 <= k && k < j ==> !heq(h, em.mapArray[slot(h, em.capacity)][k].Key)))
@@ -74,6 +75,7 @@ package hashmap
 //@   requires HMok(em) && HMplaced(em) && itag(h) != 0
 //@   allocates []Bucket, []*KeyValue, KeyValue
 //@   assigns em.capacity, em.mapArray, em.total, elems(em.mapArray), elems("*KeyValue"), KeyValue.Value, ghost(lock_Lock), ghost(lock_Unlock)
+//@   call iface:hashmap.Hasher.HashCode [the_slot_is_chosen_under_the_write_lock] ghost(lock_Lock) - ghost(lock_Unlock) == old(ghost(lock_Lock) - ghost(lock_Unlock)) + 1
 //@   call iface:hashmap.Hasher.HashEquals [keys_are_compared_under_the_write_lock] ghost(lock_Lock) - ghost(lock_Unlock) == old(ghost(lock_Lock) - ghost(lock_Unlock)) + 1
 //@   call (*hashmap.HashMap).rehash [load_checked_under_the_write_lock_after_an_insertion] ghost(lock_Lock) - ghost(lock_Unlock) == old(ghost(lock_Lock) - ghost(lock_Unlock)) + 1 && em.total == old(em.total) + 1
 //@   ensures [write_lock_released] ghost(lock_Lock) == old(ghost(lock_Lock)) + 1 && ghost(lock_Unlock) == old(ghost(lock_Unlock)) + 1
